@@ -13,8 +13,13 @@ from . import oracles_grid as G
 ANCHORS = [[0.0, 0.0], [-0.3, 0.1], [-125.4, 31.5], [165.6, -47.95], [-1.0, -0.5], [12.345, -45.678],
            [-180.0, -90.0], [179.0, 89.0], [0.007, -0.013]]
 DHS = [0.01, 0.05, 0.1, 0.2, 0.25, 0.5, 1.0]
-SHIPPED = ['nz_csep_region', 'nz_csep_collection_region', 'italy_csep_collection_region',
-           'california_relm_collection_region']
+SHIPPED = [{'shipped': 'nz_csep_region'}, {'shipped': 'nz_csep_collection_region'},
+           {'shipped': 'italy_csep_collection_region'}, {'shipped': 'california_relm_collection_region'},
+           # the two XML-template regions cannot be built offline in every sandbox: skipped when they fail
+           {'shipped': 'california_relm_region'}, {'shipped': 'italy_csep_region'},
+           # the 0.1-degree global region has 6.5 M polygons and is never built; same constructor, coarser spacing
+           {'shipped': 'global_region', 'kwargs': {'dh': 1.0}}]
+SHIPPED_THOROUGH = [{'shipped': 'global_region', 'kwargs': {'dh': 0.5}}, {'shipped': 'nz_csep_region', 'kwargs': {'dh_scale': 2}}]
 
 SHAPES = {
     'full3x2': [[0, 0], [1, 0], [2, 0], [0, 1], [1, 1], [2, 1]],
@@ -38,7 +43,24 @@ def _subsets_2x2():
             yield [list(x) for x in c]
 
 
+def _wide_lattice(rng):
+    """a few cells far apart: large column/row numbers (round-off of the index computation grows with them)"""
+    w, h = rng.choice([(40, 30), (400, 300), (2000, 100), (100, 1500), (700, 350)])
+    cells = {(0, 0), (w - 1, h - 1)}
+    for _ in range(rng.randint(1, 10)):
+        cells.add((rng.randrange(w), rng.randrange(h)))
+    cells = [list(c) for c in cells]
+    rng.shuffle(cells)
+    dec = rng.choice([0, 1, 2, 3])
+    dh = rng.choice(DHS[:5] if w * h > 50000 else DHS)
+    ax = round(rng.uniform(-180, 180 - w * dh), dec) if w * dh < 360 else -180.0
+    return {'anchor': [ax, round(rng.uniform(-90, 80), dec)], 'dh': dh, 'cells': cells,
+            'ctor': rng.choice(['polygons', 'from_origins', 'from_dict'])}
+
+
 def _random_lattice(rng, maxn):
+    if rng.random() < 0.2:
+        return _wide_lattice(rng)
     nx, ny = rng.randint(1, maxn), rng.randint(1, maxn)
     if rng.random() < 0.15:
         nx = 1
@@ -110,9 +132,12 @@ def run(tier, seed):
             T.run('grid_catalog', {'lattice': lat, 'points': inside + inside[:2], 'in_place': True}, key=('catalog-inside', name))
             T.run('grid_catalog', {'lattice': lat, 'points': [], 'in_place': False}, key=('catalog-empty', name))
     built, skipped = [], []
-    for name in SHIPPED:
-        lat = {'shipped': name}
-        L, region, bad = G.get_lattice(lat)
+    for lat in SHIPPED + (SHIPPED_THOROUGH if tier != 'quick' else []):
+        name = lat['shipped'] + (repr(sorted(lat['kwargs'].items())) if 'kwargs' in lat else '')
+        try:
+            L, region, bad = G.get_lattice(lat)
+        except Exception:
+            L = None
         if L is None:
             skipped.append(name)
             continue
